@@ -1,5 +1,7 @@
 import ChythonModel.Proofs.C15Compose
-import ChythonModel.Gen.C15Strings
+import ChythonModel.Proofs.C15Format
+import ChythonModel.Model.C15CgrTokens
+import ChythonModel.Model.C15Read
 /-!
 # C15 — reactions: role-preserving I/O, order-free identity, exact condensed graph
 
@@ -146,5 +148,104 @@ theorem identical_sides_no_centre (r : Mol) (wr : r.WF = true) (ls fs cs : List 
   rcases (centre_iff_differs r r wr wr ls fs cs ad bal h hc n).mp hn with ⟨a, b, ha, hb, hne⟩ | ⟨m, hm⟩
   · rw [ha] at hb; cases hb; rcases hne with h | h <;> exact h rfl
   · exact hm rfl
+
+/-! ## part 3 — the reaction signature does not depend on the order of molecules inside a role -/
+
+/-- What the molecule writer must guarantee for the molecules of one role: signature + radical marks determine the
+    number of components (true of the real writer: the signature has `ncomp - 1` dots; checked on every molecule of
+    the correspondence run). -/
+def KeyDetermines (l : List MolSig) : Prop :=
+  ∀ a ∈ l, ∀ b ∈ l, a.s = b.s → a.radicals = b.radicals → a.ncomp = b.ncomp
+
+theorem sort_role_perm (l l' : List MolSig) (hp : l'.Perm l) (hk : KeyDetermines l') :
+    sortRole false l' = sortRole false l := by
+  apply sortRole_perm l' l hp
+  intro a ha b hb e1 e2
+  have e3 := hk a ha b hb e1 e2
+  cases a; cases b; simp_all
+
+/-- **format_role_perm.** Permuting the molecules inside each role leaves `format(reaction)` (incl. the CXSMILES
+    radical and fragment blocks) unchanged, for every `!x` setting (without `!c`). -/
+theorem format_role_perm (noCx : Bool) (R R' A A' P P' : List MolSig)
+    (hR : R'.Perm R) (hA : A'.Perm A) (hP : P'.Perm P)
+    (kR : KeyDetermines R') (kA : KeyDetermines A') (kP : KeyDetermines P') :
+    formatRxn false noCx R' A' P' = formatRxn false noCx R A P := by
+  unfold formatRxn formatCore
+  rw [sort_role_perm R R' hR kR, sort_role_perm A A' hA kA, sort_role_perm P P' hP kP]
+
+/-- the hypotheses are satisfiable by the radical-tie case that used to be order dependent: `[Na]` radical and
+    `[Na]` non-radical in one role -/
+example :
+    let na (rad : Bool) : MolSig := ⟨[91, 78, 97, 93], 1, [rad]⟩
+    KeyDetermines [na true, na false] ∧ [na false, na true].Perm [na true, na false] := by
+  refine ⟨?_, ?_⟩
+  · intro a ha b hb _ _
+    simp only [List.mem_cons, List.mem_nil_iff, or_false] at ha hb
+    rcases ha with rfl | rfl <;> rcases hb with rfl | rfl <;> rfl
+  · exact List.Perm.swap _ _ _
+
+/-- with `!c` the given order is kept (no sort) -/
+theorem format_keep_order (l : List MolSig) : sortRole true l = l := rfl
+
+/-! ## part 4 — the CGR signature tokens mark exactly the changes (regenerated tables) -/
+
+open ChythonModel.Gen.C15 in
+/-- every producible `(order, p_order)` pair has a token -/
+theorem dyn_order_str_total :
+    ∀ o ∈ [none, some 1, some 2, some 3, some 4, some 8], ∀ p ∈ [none, some 1, some 2, some 3, some 4, some 8],
+      (o, p) ≠ (none, none) → (dynOrderStr.lookup (o, p)).isSome = true := by decide +kernel
+
+open ChythonModel.Gen.C15 in
+/-- different `(order, p_order)` pairs have different tokens, and keys are not repeated -/
+theorem dyn_order_str_injective :
+    ∀ e1 ∈ dynOrderStr, ∀ e2 ∈ dynOrderStr, e1.2 = e2.2 → e1 = e2 := by decide +kernel
+
+open ChythonModel.Gen.C15 in
+/-- a bond token contains `>` exactly when the two orders differ -/
+theorem dyn_order_str_marks_change :
+    ∀ e ∈ dynOrderStr, e.2.toList.contains '>' = (e.1.1 != e.1.2) := by decide +kernel
+
+open ChythonModel.Gen.C15 in
+theorem dyn_charge_str_total :
+    ∀ c ∈ [-4, -3, -2, -1, 0, 1, 2, 3, 4], ∀ p ∈ [-4, -3, -2, -1, 0, 1, 2, 3, (4 : Int)],
+      (dynChargeStr.lookup (c, p)).isSome = true := by decide +kernel
+
+open ChythonModel.Gen.C15 in
+theorem dyn_charge_str_injective :
+    ∀ e1 ∈ dynChargeStr, ∀ e2 ∈ dynChargeStr, e1.2 = e2.2 → e1 = e2 := by decide +kernel
+
+open ChythonModel.Gen.C15 in
+/-- a charge token contains `>` exactly when the two charges differ -/
+theorem dyn_charge_str_marks_change :
+    ∀ e ∈ dynChargeStr, e.2.toList.contains '>' = (e.1.1 != e.1.2) := by decide +kernel
+
+open ChythonModel.Gen.C15 in
+/-- radical tokens: all three radical-bearing combinations present, distinct, `>` exactly when the states differ -/
+theorem dyn_radical_str_ok :
+    (∀ r ∈ [true, false], ∀ p ∈ [true, false], (r || p) = true → (dynRadicalStr.lookup (r, p)).isSome = true) ∧
+    (∀ e1 ∈ dynRadicalStr, ∀ e2 ∈ dynRadicalStr, e1.2 = e2.2 → e1 = e2) ∧
+    (∀ e ∈ dynRadicalStr, e.2.toList.contains '>' = (e.1.1 != e.1.2)) := by decide +kernel
+
+/-- **bond token ⇔ dynamic.** For every dynamic bond the model (and, by correspondence, `CGRSmiles._format_bond`)
+    can print, the token shows `>` exactly when the bond is dynamic, and the token determines both orders. -/
+theorem cgr_bond_token_spec (b b' : DynBond) (s : String) (h : cgrBondToken b = .ok s) :
+    (s.toList.contains '>' = b.isDynamic) ∧ (cgrBondToken b' = .ok s → b' = b) := by
+  unfold cgrBondToken at h
+  split at h
+  · rename_i t ht
+    cases h
+    have hm := lookup_mem _ _ _ ht
+    refine ⟨dyn_order_str_marks_change _ hm, ?_⟩
+    intro h'
+    unfold cgrBondToken at h'
+    split at h'
+    · rename_i t' ht'
+      cases h'
+      have hm' := lookup_mem _ _ _ ht'
+      have := dyn_order_str_injective _ hm' _ hm rfl
+      simp only [Prod.mk.injEq] at this
+      cases b; cases b'; simp_all
+    · cases h'
+  · cases h
 
 end ChythonModel.Props.C15
